@@ -176,6 +176,7 @@ class Visitor(_BaseVisitor[T], abc.ABC):
     """
     call_depart = True
     skip_node = False
+    skip_siblings = None
     try:
       try:
         self.visit(ob)
@@ -184,6 +185,8 @@ class Visitor(_BaseVisitor[T], abc.ABC):
         call_depart = False
       except self.SkipDeparture:           
         call_depart = False
+      except self.SkipSiblings as ex:
+        skip_siblings = ex
       if not skip_node:
         try:
           for child in self.get_children(ob):
@@ -193,6 +196,8 @@ class Visitor(_BaseVisitor[T], abc.ABC):
     except self.SkipChildren:
       pass
     self.depart(ob, extensions_only=not call_depart)
+    if skip_siblings is not None:
+      raise skip_siblings
 
 # Adapted from https://github.com/pawamoy/griffe
 # Copyright (c) 2021, Timothée Mazzucotelli
